@@ -122,13 +122,14 @@ func (s *socket) SendMsg(m *protocol.Message) error {
 }
 
 func (s *socket) RecvMsg() (*protocol.Message, error) {
+	timeQ := nilQ
 	for {
 		s.Lock()
-		timeQ := nilQ
 		recvQ := s.recvQ
 		sizeQ := s.sizeQ
 		closeQ := s.closeQ
-		if s.recvExpire > 0 {
+		if s.recvExpire > 0 && timeQ == nil {
+			// armed once: a queue resize must not restart the deadline
 			timeQ = time.After(s.recvExpire)
 		}
 		s.Unlock()
